@@ -354,6 +354,10 @@ class Assembler:
         self._attr_edits(sf, it['tok_first'], it['tok_end'] + 1, edits, what)
         self._auto_respell(sf, it['tok_first'], it['tok_end'] + 1, edits, what)
         self._vis_edit(sf, it, edits, what)
+        if ct[it['tok_qual']].text != 'pub' and kind in ('const', 'static', 'struct', 'enum', 'type'):
+            # private items become `pub` (visibility is meaningless inside the single-file unit; Verus wants pub for items named in pub specs)
+            edits.append((ct[it['tok_qual']].start, ct[it['tok_qual']].start, 'pub ', 'rewrite'))
+            self.meta['rewrites'].append(dict(kind='private-item-as-pub', where=what))
         if kind in ('const', 'static'):
             # `: &str` / `: &[u8]` -> 'static (Verus wants the lifetime spelled inside verus!)
             for i in range(it['tok_kw'], it['tok_end']):
